@@ -106,9 +106,10 @@ def oracle(ck, n, thorough=False):
             ok, obs, exp = eval_case(cs)
         except Exception as ex:
             ok, obs, exp = False, {'raised': f'{type(ex).__name__}: {ex}'[:300]}, None
+        hyp_tag = common.allcirc_hyp(ck, pickle.loads(base64.b64decode(cs['circuit'])), [cs['strip']], 'C16')
         ck.case(key=(cs['circuit'][:80], cs['m'], cs['strip'], cs['reuse'], round(cs['pick'], 3)),
                 sample={k: v for k, v in cs.items() if k != 'circuit'},
-                tag=[f"m:{cs['m']}", f"strip:{cs['strip']}", f"reuse:{cs['reuse']}", f"sims:{cs['sims']}"])
+                tag=[f"m:{cs['m']}", f"strip:{cs['strip']}", f"reuse:{cs['reuse']}", f"sims:{cs['sims']}", hyp_tag])
         if not ok:
             ck.violation('inject-cb', 'inject_cb: ' + str((obs or {}).get('clause', 'run')), cs, obs, exp)
 
@@ -119,7 +120,8 @@ def run(ck):
     oracle(ck, n, ck.tier == 'thorough')
     if ck.broken and not ck.violations: oracle(ck, n * 5, ck.tier == 'thorough')
     ck.assumptions += ['the callback sees lines only (ops whose output pin is unconnected write the scratch slot and are not reported)',
-                       'with strip_forks the stripped fan-out lines are not evaluated and therefore not reported']
+                       'with strip_forks the stripped fan-out lines are not evaluated and therefore not reported',
+                       'the all-circuits theorems (callback_all_circuits, callback_force_*, callback_upstream_all_circuits) speak about the rows of the Lean SimOps model; their hypotheses wfB/orderOKB are evaluated by the driver on every real circuit and order (tag allcirc-hyp)']
     return ck.finish(RULE)
 
 
